@@ -8,6 +8,7 @@ CONSTANTS
   CheckCancel = TRUE
   Recheck = TRUE
   Fix6 = TRUE
+  FixReg = TRUE
 CONSTRAINT TVProgress
 POSTCONDITION TVAccepted
 CHECK_DEADLOCK FALSE
